@@ -104,6 +104,7 @@ type policyConnPool struct {
 	keyspace string
 
 	mu            sync.RWMutex
+	closed        bool // set by Close; addHost registers no pool afterwards
 	hostConnPools map[string]*hostConnPool
 }
 
@@ -247,6 +248,8 @@ func (p *policyConnPool) Close() {
 	p.mu.Lock()
 	defer p.mu.Unlock()
 
+	p.closed = true
+
 	// close the pools
 	for addr, pool := range p.hostConnPools {
 		delete(p.hostConnPools, addr)
@@ -257,6 +260,12 @@ func (p *policyConnPool) Close() {
 func (p *policyConnPool) addHost(host *HostInfo) {
 	hostID := host.HostID()
 	p.mu.Lock()
+	if p.closed {
+		// Close has closed every pool and will not run again (the session is closing):
+		// a pool registered now would be filled and never closed
+		p.mu.Unlock()
+		return
+	}
 	pool, ok := p.hostConnPools[hostID]
 	if !ok {
 		pool = newHostConnPool(
